@@ -914,6 +914,25 @@ def acmd_family(seed, n, maxlen=5, budget=8000):
     return out
 
 
+def nested_in_acmd_family(seed, n, maxlen=5, budget=6000):
+    """a regular subcommand nested in an adjacent one (`remote add NAME` chained with `fetch [-p]`): the nested command's
+    part ends where the enclosing adjacent block ends, the items after it belong to the level again"""
+    out = []
+    for i in range(n):
+        sub = posm("sub", "str")
+        sub["lit"] = "add"
+        remote = adjf("g0", ["many", "opt", "one"][i % 3], cmdhead("h0", "remote"), sub, posm("nm", "str"))
+        remote["nested_cmd"] = "add"
+        fetch = adjf("g1", ["many", "opt"][i % 2], cmdhead("h1", "fetch"), sw("p", "-p"))
+        before = [sw("o1", "-v")] if i % 2 else []
+        d = mkdef(f"nestacmd{seed}_{i}", level(before + [remote, fetch], NOTAIL), maxlen=maxlen, extras=(), spells=("sep",),
+                  words=("remote", "add", "fetch", "1"))
+        galpha_trim(d, budget)
+        d["alpha"]["words"] = ["remote", "add", "fetch", "1"]
+        out.append(d)
+    return out
+
+
 def acmd_ftu_family(seed, n, maxlen=4, budget=5000):
     """adjacent subcommands with `fallback_to_usage`: the bare name prints the command's usage, the name followed by
     something the command cannot use is an ordinary failure"""
